@@ -180,8 +180,34 @@ class CallMixin:
             owner, expr = c
             from .ex import Frame
             fr = Frame(owner.module, None)
-            return self.eval(expr, fr)
+            r = self.eval(expr, fr)
+            if self.is_enum_class(owner) and isinstance(r, VStr) and not r.is_bytes and obj is None:
+                from .ty import EnumOf, VEnum
+                return VEnum(r.t, EnumOf(owner.key))  # `Cls.MEMBER`: the member, represented by its value
+            return r
         return None
+
+    # ------------------------------------------------------------------ string-valued Enum classes
+    def is_enum_class(self, ci):
+        return isinstance(ci, ClassInfo) and any((b.id if isinstance(b, ast.Name) else getattr(b, "attr", "")) in
+                                                 ("Enum", "StrEnum") for b in ci.bases)
+
+    def enum_members(self, ci):
+        """[(member name, value string)] of an Enum class whose members are string constants."""
+        out = []
+        for n, expr in ci.consts.items():
+            if isinstance(expr, ast.Constant) and isinstance(expr.value, str) and not n.startswith("_"):
+                out.append((n, expr.value))
+        return out
+
+    def enum_member_name(self, v):
+        """`member.name`: by the members of the class; uninterpreted for a string that is no member's value."""
+        ci = self.repo.lookup_class(v.enum_ty.cls)
+        self.ufs_used.add(f"enum: name of a non-member value of {ci.name} is uninterpreted")
+        t = z3.Function(f"enum.name_of.{ci.name}", z3.StringSort(), z3.StringSort())(v.t)
+        for n, val in reversed(self.enum_members(ci)):
+            t = z3.If(v.t == z3.StringVal(val), z3.StringVal(n), t)
+        return VStr(t)
 
     # ------------------------------------------------------------------ calls
     def ex_Call(self, e, fr):
@@ -759,11 +785,19 @@ class CallMixin:
                 t = z3.Store(t, z3.StringVal(k), to_val(x))
             return VDict(t)
         if ty is Dict and isinstance(v, VAny):
-            return VDict(ValSort.dv(v.t))
+            return self.dict_view(v)
         if ty is Any and not isinstance(v, VAny):
             return VAny(to_val(v))
         if isinstance(ty, SeqOf) and isinstance(v, VList) and v.elem is None and v.items is not None:
             v.elem = ty.elem
+        if isinstance(ty, SeqOf) and isinstance(v, VList) and v.elem is not None and ty.elem is not None \
+                and v.elem is not ty.elem and isinstance(ty.elem, Rec) and isinstance(v.elem, Rec):
+            from .ty import _tykey
+            if _tykey(ty.elem) == _tykey(v.elem) and any(type(ty.elem.fields[k]) is not type(v.elem.fields.get(k))
+                                                         for k in ty.elem.fields):
+                # same SMT sort, other VIEW of a field (an enum-valued field seen as its value string): the callee
+                # sees the elements through its own descriptor (a copy: only for lists the callee does not mutate)
+                return VList(ty.elem, seq=v.term())
         if ty in (Int, Str, Bool) and isinstance(v, VAny):
             return coerce(v, ty)
         if isinstance(ty, SeqOf) and isinstance(v, VAny):
@@ -812,8 +846,14 @@ class CallMixin:
             obj.fields[last] = fty.fresh(path)
 
     # ---- construction
+    def resolve_vclass(self, cv: VClass):
+        from .ty import ClassKey
+        if isinstance(cv.info, ClassKey):
+            cv.info = self.repo.lookup_class(cv.info.key)
+        return cv
+
     def construct(self, cv: VClass, args, kwargs, fr, lineno):
-        ci = cv.info
+        ci = self.resolve_vclass(cv).info
         if isinstance(ci, str):
             msg = args[0] if args else None
             return VExc(ci, msg)
@@ -826,6 +866,18 @@ class CallMixin:
                 from .ex import EXC_PARENTS
                 EXC_PARENTS.setdefault(ci.name, bn)
                 return VExc(ci.name, args[0] if args else None)
+        if self.is_enum_class(ci) and len(args) == 1 and not kwargs and self.enum_members(ci):
+            # Cls(value): the member with that value, ValueError if there is none
+            from .ty import EnumOf, VEnum
+            a0 = args[0]
+            if isinstance(a0, VOpt) or not isinstance(a0, (VStr, VAny)):
+                raise Unsupported(f"{ci.name}({a0}): only string values are modelled")
+            val = coerce(a0, Str)
+            ok = [val.t == z3.StringVal(x) for _, x in self.enum_members(ci)]
+            if isinstance(a0, VAny):
+                ok = [z3.And(ValSort.is_S(a0.t), c) for c in ok]
+            self.maybe_raise(z3.Or(ok) if len(ok) > 1 else ok[0], "ValueError", lineno)
+            return VEnum(val.t, EnumOf(ci.key))
         c = api.REGISTRY.get(ci.key + ".__init__") or api.REGISTRY.get(ci.key)
         ty = Rec(ci.name, cls=ci.key)
         if c is not None and isinstance(c.types.get("self"), Rec) and not ci.is_dataclass:
@@ -1107,6 +1159,9 @@ class CallMixin:
             return VDict(v.t)
         if isinstance(v, VRec) and v.ty.as_dict:
             return VRec(v.ty, dict(v.fields))
+        if isinstance(v, VAny):
+            self.safety(ValSort.is_D(v.t), "type(dict) of dynamic value", lineno)  # dict(<mapping>): shallow copy
+            return VDict(ValSort.dv(v.t))
         raise Unsupported(f"dict({v})")
 
     def bi_set(self, args, kwargs, lineno):
@@ -1253,7 +1308,7 @@ class CallMixin:
         if isinstance(recv, VAny):
             if name in ("get", "items", "keys"):
                 self.safety(ValSort.is_D(recv.t), "type(dict) of dynamic value", lineno)
-                return self.dict_method(VDict(ValSort.dv(recv.t)), name, args, kwargs, lineno)
+                return self.dict_method(self.dict_view(recv), name, args, kwargs, lineno)
             if name in ("startswith", "endswith", "lower", "upper", "strip", "split"):
                 return self.str_method(coerce(recv, Str), name, args, kwargs, lineno)
         if isinstance(recv, VConst) and isinstance(recv.py, dict):
@@ -1533,6 +1588,9 @@ class CallMixin:
             val = z3.Select(d.t, k.t)
             present = val != ValSort.Absent
             return self._dyn_merge(present, VAny(val), default)
+        if name in ("setdefault", "pop"):
+            from .ty import freeze_refs
+            freeze_refs(d)
         if name == "setdefault":
             k = coerce(args[0], Str)
             val = z3.Select(d.t, k.t)
